@@ -19,6 +19,8 @@ import (
 	"os/exec"
 	"path/filepath"
 	"runtime"
+	"runtime/debug"
+	"runtime/pprof"
 	"sort"
 	"strings"
 	"sync"
@@ -38,6 +40,8 @@ type Result struct {
 	Violation *Violation     `json:"violation,omitempty"`
 	Infra     string         `json:"infra,omitempty"` // non-empty: harness trouble, not a verdict
 	Digest    uint64         `json:"digest"`          // digest of the execution (event log + observable results)
+	Evals     int            `json:"evals,omitempty"` // simulated executions inside this case (0 means 1)
+	Digests   []uint64       `json:"-"`               // per-execution digests when Evals > 1
 	Trivial   bool           `json:"trivial"`         // nothing interesting happened (engine-defined)
 	Steps     int            `json:"steps"`
 	Decisions int            `json:"decisions"`
@@ -106,6 +110,7 @@ type workerMsg struct {
 
 type summary struct {
 	Runs       int            `json:"runs"`
+	Cases      int            `json:"cases"`
 	NonTrivial int            `json:"nontrivial"`
 	Steps      int64          `json:"steps"`
 	Decisions  int64          `json:"decisions"`
@@ -121,6 +126,13 @@ func mix(seed uint64, i int) uint64 {
 	z = (z ^ (z >> 27)) * 0x94D049BB133111EB
 	return z ^ (z >> 31)
 }
+
+// Scratch is the scratch directory engines may create files in; Tier the
+// tier of this invocation. Both are valid once Main has parsed the flags.
+var (
+	Scratch string
+	Tier    string
+)
 
 // ExtraWorkerArgs are passed through to worker and replay subprocesses
 // (engine-specific flags that the engine's main strips before Main).
@@ -145,6 +157,8 @@ func Main(e Engine) {
 		noMin     = flag.Bool("no-minimize", false, "do not minimise failures")
 	)
 	flag.Parse()
+	Scratch = *scratch
+	Tier = *tier
 	if *replay != "" {
 		os.Exit(doReplay(e, *replay))
 	}
@@ -210,6 +224,25 @@ func armWatchdog(name string, d time.Duration) {
 }
 
 func runWorker(e Engine, tier string, seed uint64, wid, workers int, budget time.Duration, maxRuns int, scratch string, caseTO time.Duration) {
+	// The simulation is sequential (one token). With the default GOMAXPROCS
+	// every hand-over wakes another thread; 16 workers x 16 Ps then spend
+	// their time in futex calls. Two Ps: one for the token holder, one for
+	// the collector. Child processes (go list) are not affected.
+	if os.Getenv("VERIF_WORKER_PROCS") == "" {
+		runtime.GOMAXPROCS(2)
+		os.Setenv("GOMAXPROCS", "4") // for child processes (go list, compile)
+	}
+	// Page faults are very expensive in this sandbox when many processes
+	// fault at once (measured: an allocation-heavy loop is 8x slower with 16
+	// copies at GOGC=100 than at GOGC=800, pure computation scales). Let the
+	// heap grow and be reused instead of being returned and re-faulted.
+	debug.SetGCPercent(400)
+	if pf := os.Getenv("VERIF_CPUPROFILE"); pf != "" && wid == 0 {
+		if f, err := os.Create(pf); err == nil {
+			pprof.StartCPUProfile(f)
+			defer pprof.StopCPUProfile()
+		}
+	}
 	out := bufio.NewWriter(os.Stdout)
 	enc := json.NewEncoder(out)
 	startWatchdog()
@@ -232,7 +265,12 @@ func runWorker(e Engine, tier string, seed uint64, wid, workers int, budget time
 			out.Flush()
 			continue
 		}
-		sum.Runs++
+		if r.Evals > 1 {
+			sum.Runs += r.Evals
+		} else {
+			sum.Runs++
+		}
+		sum.Cases++
 		sum.Steps += int64(r.Steps)
 		sum.Decisions += int64(r.Decisions)
 		sum.SimTime += r.SimTime
@@ -241,7 +279,13 @@ func runWorker(e Engine, tier string, seed uint64, wid, workers int, budget time
 		}
 		if !r.Trivial {
 			sum.NonTrivial++
-			digests[r.Digest] = true
+			if len(r.Digests) > 0 {
+				for _, d := range r.Digests {
+					digests[d] = true
+				}
+			} else {
+				digests[r.Digest] = true
+			}
 		}
 		if len(sum.Samples) < 2 && r.Sample != nil && !r.Trivial {
 			sum.Samples = append(sum.Samples, r.Sample)
@@ -340,6 +384,7 @@ func runParent(e Engine, tier string, seed uint64, workers int, budget time.Dura
 				gotSummary = true
 				s := m.Summary
 				total.Runs += s.Runs
+				total.Cases += s.Cases
 				total.NonTrivial += s.NonTrivial
 				total.Steps += s.Steps
 				total.Decisions += s.Decisions
@@ -428,7 +473,7 @@ func runParent(e Engine, tier string, seed uint64, workers int, budget time.Dura
 		os.WriteFile(path, b, 0666)
 		// the replay must reproduce in a fresh process
 		if v.v.Class != "process-fatal" {
-			out, err := exec.Command(self, append(append([]string(nil), ExtraWorkerArgs...), "-replay", path)...).CombinedOutput()
+			out, err := exec.Command(self, append(append([]string(nil), ExtraWorkerArgs...), "-scratch", scratch, "-replay", path)...).CombinedOutput()
 			if err == nil || !strings.Contains(string(out), "REPRODUCED") {
 				fmt.Fprintf(os.Stderr, "batch: violation %q of case %d did not reproduce on replay in a fresh process: harness nondeterminism\n%s\n", v.v.Class, v.index, out)
 				infra++
@@ -459,6 +504,7 @@ func runParent(e Engine, tier string, seed uint64, workers int, budget time.Dura
 			"tier":                tier,
 			"seed":                seed,
 			"evaluations":         total.Runs,
+			"cases":               total.Cases,
 			"distinct_nontrivial": len(digests),
 			"nontrivial":          total.NonTrivial,
 			"rule":                d.Rule,
@@ -477,7 +523,7 @@ func runParent(e Engine, tier string, seed uint64, workers int, budget time.Dura
 			"assumptions":         d.Assumptions,
 			"real_vs_stub":        d.RealVsStub,
 			"fault_kinds":         d.FaultKinds,
-			"exhaustive":          exhaustive && total.Runs == maxRuns,
+			"exhaustive":          exhaustive && total.Cases == maxRuns,
 		}
 		b, _ := json.MarshalIndent(part, "", " ")
 		if err := os.WriteFile(partOut, b, 0666); err != nil {
@@ -562,8 +608,7 @@ func doReplay(e Engine, path string) int {
 		return 1
 	}
 	if rf.Digest != 0 && r.Digest != rf.Digest {
-		fmt.Printf("REPRODUCED class %q but with a different execution digest (%x vs %x)\n%s\n", r.Violation.Class, r.Digest, rf.Digest, r.Violation.Detail)
-		return 1
+		fmt.Printf("note: execution digest %x differs from the recorded %x (different scratch directory?)\n", r.Digest, rf.Digest)
 	}
 	fmt.Printf("REPRODUCED: VIOLATION property=%s class=%s\n%s\n", rf.Property, r.Violation.Class, r.Violation.Detail)
 	return 1
